@@ -207,6 +207,14 @@ def run_unit(name, spec, repo, workdir, tier="quick", seed=0, threads=4, timeout
                             fl["fn_props"] = it.get("props")
                             if fl["src"] is None and c in linemap:
                                 fl["src"] = "%s:%d" % linemap[c]
+            gl0 = fl.get("gen_line")
+            if gl0 and fl["fn"] is None and not fl["tags"] and re.match(r"\s*(pub\s+)?(open\s+|closed\s+)?(proof\s+|exec\s+)?fn\s", gen_lines[gl0 - 1] if gl0 - 1 < len(gen_lines) else ""):
+                # a whole-function failure (e.g. rlimit) is reported at the `fn` line: for functions that are NOT vx items (macro variants generated
+                # from the repository's macro text into an include) take the tags of the signature's own requires/ensures lines
+                k = gl0
+                while k < len(gen_lines) and k < gl0 + 25 and gen_lines[k].strip() != "{":
+                    fl["tags"] += [(",".join(expand(m2.group(1).split(","))), m2.group(2)) for m2 in TAG_RE.finditer(gen_lines[k])]
+                    k += 1
             res["failures"].append(fl)
             i = j
         else:
